@@ -87,6 +87,8 @@ struct ClientEnd {
     unreachable_first: bool,
     /// a disconnect datagram went to the silent address after the client had moved on to the real one
     misdirected_disconnect: bool,
+    /// its token had expired (by the server's clock) when its first request could reach the server
+    must_never_connect: bool,
     // message model: [direction][channel] ; direction 0 = client->server
     sent: [[Vec<Bytes>; 3]; 2],
     got_ordered: [usize; 2],
@@ -107,6 +109,10 @@ struct Net {
     clients: Vec<ClientEnd>,
     tick: u64,
     now: Duration,
+    /// the netcode server's clock as the harness knows it (its frames may be longer than the clients')
+    srv_clock: Duration,
+    /// the next spawn gets a token that expires at this whole second of the server's clock
+    next_token_expiry: Option<u64>,
     faults: bool,
     gentle: bool,
     /// development mode of both transports: ServerAuthentication::Unsecure / ClientAuthentication::Unsecure (tokens made by the
@@ -156,6 +162,7 @@ enum Op {
     SetLimit { to: usize },
     ServerLongFrame { ms: u64 },
     JunkFlood,
+    ExpiringSpawn { id: u64, expires_at_s: u64 },
 }
 
 impl Net {
@@ -170,7 +177,12 @@ impl Net {
         let auth = if self.unsecure {
             ClientAuthentication::Unsecure { protocol_id: PROTO, client_id: id, server_addr: self.front_addr, user_data: Some(ud) }
         } else {
-            let token = ConnectToken::generate(self.now, PROTO, if self.short_tokens { 2 * self.timeout_s + 4 } else { 600 }, id, if self.timeouts_disabled { -1 } else { self.timeout_s as i32 }, match first_address {
+            // a token about to expire: minted 30 s before the whole second of the server's clock at which it expires
+            let (minted, life) = match self.next_token_expiry {
+                Some(s) => (Duration::from_secs(s - 30), 30),
+                None => (self.now, if self.short_tokens { 2 * self.timeout_s + 4 } else { 600 }),
+            };
+            let token = ConnectToken::generate(minted, PROTO, life, id, if self.timeouts_disabled { -1 } else { self.timeout_s as i32 }, match first_address {
                 1 => vec![self.dead_addr, self.front_addr],
                 2 => vec!["[::1]:9".parse().unwrap(), self.front_addr],
                 _ => vec![self.front_addr],
@@ -212,6 +224,7 @@ impl Net {
             seen_at_front: false,
             unreachable_first: first_address == 2,
             misdirected_disconnect: false,
+            must_never_connect: self.next_token_expiry.take().is_some(),
             sent: Default::default(),
             got_ordered: [0; 2],
             got_set: Default::default(),
@@ -544,6 +557,7 @@ impl Net {
         self.relay(ctx);
         // server: receive, update clients, push renet disconnects down (its frame may have taken much longer than the clients')
         let dt = self.server_dt_once.take().unwrap_or(dt);
+        self.srv_clock += dt;
         self.server.update(dt);
         if let Some(l) = self.local.as_mut() {
             l.update(dt);
@@ -594,6 +608,12 @@ impl Net {
             let c = &mut self.clients[ci];
             if held {
                 c.server_ever_held = true;
+            }
+            if c.must_never_connect && (held || c.client.is_connected()) {
+                return Err(Fail::new(
+                    "expired_token_connected",
+                    format!("client object {ci} (id {}) holds a connect token that had expired by the server's clock before its first request could be read, yet its handshake completed", c.id),
+                ));
             }
             if c.client.is_connected() && !c.server_ever_held {
                 return Err(Fail::new("client_connected_before_handshake", format!("the RenetClient of client object {ci} reports connected although the server never completed a handshake for it")));
@@ -666,7 +686,7 @@ impl Property for C20 {
         PbtCfg { cases: tier.pick(30_000, 300_000), max_len: tier.pick(1200, 5000), shrink_ms: 120_000 }
     }
     fn required_labels(&self) -> Vec<&'static str> {
-        vec!["relay_corrupt", "relay_replay", "relay_drop", "relay_dup", "relay_delay", "client_disconnect", "transport_disconnect", "server_disconnect", "disconnect_all", "timeout_by_silence", "gentle_case", "reconnect", "event_connected", "event_disconnected", "e2e_messages", "poison_to_client", "poison_to_server", "server_msg_layer_disconnect", "client_msg_layer_disconnect", "silent_first_address", "unsecure_authentication", "local_client", "limit_changed", "aged_counters", "unreachable_first_address", "second_object_same_id", "sent_while_connecting", "server_long_frame", "short_lived_tokens", "misrouted_during_silence", "one_way_silence", "twin_objects_same_id", "timeouts_disabled", "junk_flood", "slow_ticks"]
+        vec!["relay_corrupt", "relay_replay", "relay_drop", "relay_dup", "relay_delay", "client_disconnect", "transport_disconnect", "server_disconnect", "disconnect_all", "timeout_by_silence", "gentle_case", "reconnect", "event_connected", "event_disconnected", "e2e_messages", "poison_to_client", "poison_to_server", "server_msg_layer_disconnect", "client_msg_layer_disconnect", "silent_first_address", "unsecure_authentication", "local_client", "limit_changed", "aged_counters", "unreachable_first_address", "second_object_same_id", "sent_while_connecting", "server_long_frame", "short_lived_tokens", "misrouted_during_silence", "one_way_silence", "twin_objects_same_id", "timeouts_disabled", "junk_flood", "slow_ticks", "token_expiring_in_first_frame"]
     }
     fn run_choices(&self, ctx: &mut Ctx) -> Outcome {
         let seed16 = ctx.src.u16() as u64;
@@ -733,6 +753,8 @@ impl Property for C20 {
             clients: vec![],
             tick: 0,
             now,
+            srv_clock: now,
+            next_token_expiry: None,
             faults: true,
             gentle,
             unsecure,
@@ -796,7 +818,7 @@ impl Property for C20 {
                     }
                 }
             }
-            let w: [u32; 12] = if gentle { [60, 30, 4, 0, 0, 0, 0, 0, 0, 2, 2, 2] } else { [60, 30, 4, 3, 3, 1, 3, 3, 3, 2, 2, 2] };
+            let w: [u32; 13] = if gentle { [60, 30, 4, 0, 0, 0, 0, 0, 0, 2, 2, 2, 0] } else { [60, 30, 4, 3, 3, 1, 3, 3, 3, 2, 2, 2, if unsecure { 0 } else { 2 }] };
             let op = match ctx.src.weighted(&w) {
                 0 => {
                     net.do_tick(ctx)?;
@@ -998,6 +1020,24 @@ impl Property for C20 {
                         ctx.label("poison_to_server");
                     }
                     Op::Poison { client: ci, to_client, unknown_channel }
+                }
+                12 => {
+                    // a client whose token expires in the very server frame in which its first request can be read: the frame's update moves
+                    // the clock to or past the expiry second before the datagrams waiting in the socket are judged, so it never connects
+                    if net.clients.len() >= 6 {
+                        continue;
+                    }
+                    let mut waited = 0;
+                    while (net.srv_clock.as_millis() as u64 + tick_ms) / 1000 == net.srv_clock.as_millis() as u64 / 1000 && waited < 70 {
+                        net.do_tick(ctx)?;
+                        waited += 1;
+                    }
+                    let s = (net.srv_clock.as_millis() as u64 + tick_ms) / 1000;
+                    net.next_token_expiry = Some(s);
+                    let id = 960 + net.clients.len() as u64;
+                    net.spawn(id, 0)?;
+                    ctx.label("token_expiring_in_first_frame");
+                    Op::ExpiringSpawn { id, expires_at_s: s }
                 }
                 _ => {
                     // a new client object: a new id, or a reconnect of an id whose earlier session is over
